@@ -141,6 +141,24 @@ def run_reject(run, P):
         # every branch is relevant here: the reject conditions themselves must be interpreted
         keys = None
 
+        NIBBLE = ('delta15', 'length15', 'tkl15')
+
+        def lhs_is_nibble(cond, e):
+            """the compared object holds a raw 4-bit field (its interval is inside [0,15]), not a decoded size of the same name"""
+            c = strip(cond)
+            cands = []
+            if isinstance(c, dict) and c.get('k') == 'bin':
+                cands = [c['l'], c['r']]
+            elif isinstance(c, dict):
+                cands = [c]
+            for x in cands:
+                a = ap(x)
+                if a:
+                    lo, hi, ex = e.intf(a)
+                    if lo >= 0 and hi <= 15:
+                        return True
+            return False
+
         def on_branch(b, s, e, ctx):
             term = b.get('term') or {}
             cond = term.get('cond')
@@ -161,6 +179,8 @@ def run_reject(run, P):
                 truth = s == b['succ'][0]
             for rec in recs:
                 if _matches(norm, rec, truth, None):
+                    if rec[0] in NIBBLE and not lhs_is_nibble(cond, e):
+                        continue
                     matched.add(rec[0])
                     e2 = e.copy()
                     e2.ts['rej'] = rec[0]
@@ -206,6 +226,82 @@ def run_reject(run, P):
                                   % (fname, rec[4], rec[1], rec[2], rec[3]))
                 else:
                     run.require(run.fixture_mode, 'R-PARSE-GATE: variables of reject condition %s/%s not found' % (fname, rec[0]))
+
+
+def _is_nibble_expr(r):
+    """x & 0x0f  or  (x & 0xf0) >> 4"""
+    r = strip(r)
+    if not isinstance(r, dict) or r.get('k') != 'bin':
+        return False
+    if r.get('op') == '&' and const_int(r['r']) == 15:
+        return True
+    if r.get('op') == '>>' and const_int(r['r']) == 4:
+        l = strip(r['l'])
+        return isinstance(l, dict) and l.get('k') == 'bin' and l.get('op') == '&' and const_int(l['r']) == 240
+    return False
+
+
+def run_nibble(run, P, funcs=('coap_opt_parse', 'coap_pdu_parse_header')):
+    """accepted => no raw 4-bit field extracted from the wire had the reserved value 15: at every non-zero return each
+    nibble variable assigned on the path has 15 excluded (or was overwritten after 15 had been excluded)"""
+    run.rule('R-PARSE-GATE')
+    for fname in funcs:
+        if not P.has(fname):
+            if run.fixture_mode:
+                continue
+            run.require(False, 'anchor function %s() not found' % fname)
+        f = P.func(fname)
+        n = [0]
+
+        def excluded15(env, a):
+            lo, hi, ex = env.intf(a)
+            return hi < 15 or lo > 15 or 15 in ex
+
+        def on_event(ev, env0, ctx):
+            env = env0
+            pend = [k[4:] for k in env.ts if k.startswith('nib:')]
+            done = [a for a in pend if excluded15(env, a)]
+            if done:
+                env = env.copy()
+                for a in done:
+                    del env.ts['nib:' + a]
+            t = ev['e']
+            tgt = None
+            rhs = None
+            if t.get('k') == 'asg' and t.get('op') == '=':
+                tgt, rhs = ap(t['l']), t['r']
+            elif t.get('k') == 'decl':
+                for d in t['d']:
+                    if 'init' in d and _is_nibble_expr(d['init']):
+                        tgt, rhs = 'v%d' % d['id'], d['init']
+            if tgt and rhs is not None and _is_nibble_expr(rhs):
+                n[0] += 1
+                run.instance('R-PARSE-GATE', '%s: nibble %s' % (fname, short(t)[:50]))
+                e = apply_generic(ev, env, None).copy()
+                e.ts['nib:' + tgt] = ev['loc']
+                return [e]
+            if tgt and ('nib:' + tgt) in env.ts:
+                # the variable is re-used for the decoded value while 15 was never excluded
+                e = apply_generic(ev, env, None).copy()
+                e.ts['lost:' + tgt] = e.ts.pop('nib:' + tgt)
+                return [e]
+            if t.get('k') == 'ret':
+                v = const_int(t.get('e')) if 'e' in t else None
+                if v != 0:
+                    bad = [(k, loc) for k, loc in env.ts.items() if k.startswith('nib:') or k.startswith('lost:')]
+                    run.oblige('R-PARSE-GATE', not bad, '%s:nibble15-excluded-at-accept' % fname)
+                    for k, loc in bad[:1]:
+                        run.violation('R-PARSE-GATE', fname, loc, 'nibble15-accepted',
+                                      'the function can return success on a path where the 4-bit field extracted here was never tested against the reserved value 15 '
+                                      '(a message with that nibble set to 15 is accepted)', ctx.path())
+            if env is not env0:
+                return [apply_generic(ev, env, None)]
+            return None
+
+        def key_fn(e):
+            return tuple(sorted(k for k in e.ts if k.startswith('nib:') or k.startswith('lost:')))
+        solve(f, Env(), on_event, None, None, None, key_fn=key_fn, max_envs=64)
+        run.require(n[0] > 0 or run.fixture_mode, 'R-PARSE-GATE: no 4-bit field extraction found in %s()' % fname)
 
 
 def run_gate(run, P):
@@ -269,3 +365,4 @@ def run_gate(run, P):
 def run(run, P):
     run_gate(run, P)
     run_reject(run, P)
+    run_nibble(run, P)
